@@ -120,6 +120,35 @@ def run(run, h):
             cc = dict(case, changed=nm)
             run.case(cc)
             run.check_monitor("channel_id_changes_with_any_single_input", c2 != base[0], cc)
+        # every single ELEMENT of the public key (both halves; a key that differs from the previous one in one element can only
+        # come from decoding, and the id of each such key is requested right after the id of its neighbour - the function must not
+        # depend on what was computed before): the id is the SHA3 of the inputs with that element replaced, and differs
+        atoms = [a["g1"]] + list(a["y1s"]) + [a["g2"], a["x2"]] + list(a["y2s"])
+        a2 = M2.atoms
+        atoms2 = [a2["g1"]] + list(a2["y1s"]) + [a2["g2"], a2["x2"]] + list(a2["y2s"])
+        def pk_wire(at):            # bincode of PublicKey<5>: the two arrays carry a length prefix
+            return at[0] + le8(5) + "".join(at[1:6]) + at[6] + at[7] + le8(5) + "".join(at[8:13])
+        if pk_hex == pk_wire(atoms):
+            variants = [("pk_element_%d_replaced" % k, atoms[:k] + [atoms2[k]] + atoms[k + 1:]) for k in range(len(atoms))]
+            variants += [("pk_y1_0_1_exchanged", [atoms[0], atoms[2], atoms[1]] + atoms[3:]),
+                         ("pk_y2_3_4_exchanged", atoms[:11] + [atoms[12], atoms[11]])]
+            if run.tier == "quick":
+                variants = rng.sample(variants, 6) + variants[-2:]
+            for nm, at in variants:
+                pk2 = pk_wire(at)
+                got = h.try_call("cid_new", mr.hex(), cr.hex(), pk2, hx(ma), hx(ca))
+                cc = dict(case, changed=nm)
+                run.case(cc)
+                run.count("channel id: one key element changed")
+                if got is None:
+                    continue            # the variant does not decode as a key
+                run.check_monitor("channel_id_is_sha3_of_all_five_inputs",
+                                  got[0] == sha3(mr + cr + bytes.fromhex("".join(at)) + ma + ca).hex() and got[1] == "".join(at), cc)
+                run.check_monitor("channel_id_changes_with_any_single_input", got[0] != base[0], cc)
+                back = h.call("cid_new", mr.hex(), cr.hex(), pk_hex, hx(ma), hx(ca))
+                run.check_monitor("channel_id_is_sha3_of_all_five_inputs", back[0] == base[0], dict(cc, step="original key again"))
+        else:
+            run.count("channel id: key bytes are not in the expected layout (element variants skipped)")
         if rd == 0:
             # the key's byte representation as the model lays it out (Abacus.pk_to_bytes_atoms), concretised on the curve
             batch.add("r_pk_to_bytes %s" % coq_pk(M.pk),
